@@ -925,6 +925,12 @@ class Condition {
    */
   time_t getLastCheckTime() const { return m_lastCheckTime; }
 
+  /**
+   * Called before a @a Message is removed from the @a MessageMap and deleted.
+   * @param message the @a Message about to be deleted.
+   */
+  virtual void messageRemoved(const Message* message) { /* nothing referred by default */ }
+
 
  protected:
   /** the system time when the condition was last checked, 0 for never. */
@@ -981,6 +987,9 @@ class SimpleCondition : public Condition {
 
   // @copydoc
   bool isTrue() override;
+
+  // @copydoc
+  void messageRemoved(const Message* message) override;
 
   /**
    * Return whether the condition is based on a numeric value.
